@@ -196,3 +196,79 @@ func vpC12_O4() {
 	typ, factor, bound := rp.ProvenStatement()
 	vpAssert("accepted range proof with degenerate commitments still states a truth", vpHoldsStatement(typ, factor, bound, cred.Attributes[1]))
 }
+
+func init() {
+	vpHarnesses["vpC12_O5"] = vpC12_O5
+}
+
+// C12-O5: a prover who leaves out responses. The credential is (secret, 0, a2):
+// a zero-valued attribute contributes nothing to the signature equation, so a
+// prover can give it randomizer 0 and omit its response. The honest range proof
+// on attribute 2 is then altered (bound, factor or a response changed) or
+// replaced by a syntactically complete one with arbitrary content. Whenever the
+// result is accepted, the range proof at the highest hidden index has been
+// checked: it is bound to the attribute's response and its statement is true.
+func vpC12_O5() {
+	pk, sk := vpKeys(0, 4, 1024, false)
+	a2 := vpBigBits("a2", 256)
+	attrs := []*big.Int{vpBigBits("secret", 255), big.NewInt(0), a2}
+	sig, err := SignMessageBlock(sk, pk, attrs)
+	vpAssume(err == nil)
+	cred := &Credential{Signature: sig, Pk: pk, Attributes: attrs}
+	bound := vpBig("bound")
+	vpAssume(bound.Sign() >= 0 && a2.Cmp(bound) >= 0 && new(big.Int).Sub(a2, bound).BitLen() <= 255)
+	stmt := &rangeproof.Statement{Sign: 1, Factor: 1, Bound: bound}
+	// graft: the prover makes its proof without any range statement (so that no range commitment enters
+	// its challenge) and attaches a range proof of its own making afterwards
+	graft := vpBool("graftedRangeProof")
+	stmts := map[int][]*rangeproof.Statement{2: {stmt}}
+	if graft {
+		stmts = nil
+	}
+	b, err := cred.CreateDisclosureProofBuilder(nil, stmts, false)
+	vpAssume(err == nil)
+	omit := vpBool("omitZeroAttribute")
+	if omit {
+		b.attrRandomizers[1] = big.NewInt(0)
+	}
+	ctx, nonce := vpBigBits("ctx", 256), vpBigBits("nonce", 80)
+	pl, err := ProofBuilderList{b}.BuildProofList(ctx, nonce, false)
+	vpAssume(err == nil)
+	proof := pl[0].(*ProofD)
+	vpAssume(proof.C.Sign() != 0)
+	if omit {
+		vpAssert("the omitted response is zero", proof.AResponses[1].Sign() == 0)
+		delete(proof.AResponses, 1)
+	}
+	if graft {
+		proof.RangeProofs = map[int][]*rangeproof.Proof{2: {vpShapeRangeProof("graft", 3+vpChoose("rpn", 2))}}
+	}
+	rp := proof.RangeProofs[2][0]
+	d := vpBig("d")
+	vpAssume(d.Sign() != 0)
+	alteration := 0
+	if !graft {
+		alteration = vpChoose("alteration", 4)
+	}
+	switch alteration {
+	case 0: // none
+	case 1:
+		rp.K = new(big.Int).Add(rp.K, d)
+	case 2:
+		rp.V5Response = new(big.Int).Add(rp.V5Response, d)
+	case 3:
+		proof.RangeProofs[2][0] = vpShapeRangeProof("forged", 4)
+	}
+	if !proof.Verify(pk, ctx, nonce, false) {
+		return
+	}
+	vpReach("a proof with an omitted zero attribute is accepted")
+	for index, rps := range proof.RangeProofs {
+		vpAssert("accepted proof (omitted responses): range proofs only at hidden attribute indices", index == 2 && proof.AResponses[index] != nil)
+		for _, r := range rps {
+			vpAssert("accepted proof (omitted responses): range proof is bound to the attribute's response", r.MResponse != nil && r.MResponse.Cmp(proof.AResponses[2]) == 0)
+			typ, factor, bnd := r.ProvenStatement()
+			vpAssert("accepted proof (omitted responses): reported statement is true of the signed value", vpHoldsStatement(typ, factor, bnd, a2))
+		}
+	}
+}
